@@ -8,6 +8,9 @@
 //! stats.json (counters, samples, implementation-vs-oracle failures found on the Rust side).
 #![allow(dead_code)]
 mod gen;
+mod horn;
+mod progen;
+mod solver;
 mod ops;
 mod rng;
 mod wire;
